@@ -185,7 +185,8 @@ func (e *nEnv) stateKey(phys []physVer) string {
 		}
 		fmt.Fprintf(&sb, "h%d:%v:%d,", h.ver.id, linked[h.node], l)
 	}
-	sb.WriteString("|" + strings.Join(strings.Fields(e.db.DumpStats()), ""))
+	st := nitro.VerifAggrStats(e.db)
+	fmt.Fprintf(&sb, "|st=%d,%d,%d,%d,%d,%v", st.NodeCount, st.SoftDeletes, st.Memory, st.NodeAllocs, st.NodeFrees, st.NodeDistribution[:4])
 	return sb.String()
 }
 
